@@ -4,11 +4,15 @@ import (
 	"bytes"
 	"fmt"
 	"sort"
+	"strings"
+	"time"
 
+	"verif/internal/conc"
 	"verif/internal/decoder"
 	"verif/internal/driver"
 	"verif/internal/gen"
 	"verif/internal/model"
+	"verif/internal/sched"
 )
 
 // C14: files conform to the v4 layout and decode independently to the flushed state.
@@ -18,12 +22,12 @@ var mixC14 = Mix{Set: 34, Delete: 10, GetItem: 2, Visit: 1, Flush: 14, Evict: 4,
 func init() {
 	register(&Prop{
 		ID: "C14", Level: "exploration",
-		Rule:        "writer side: random histories (key lengths 1..65535 incl. the boundaries 255/256/65535, value lengths 0..4 KB plus a 1 MB value in some cases, 0-4 collections with plain and exotic names, magic-laden data, all callback configurations) - after EVERY successful Flush and for every CopyTo destination the file image is parsed by the independent decoder (standard library only, no gkvlite code): root record framing (doubled markers, version 4, both length fields, offset field, JSON map of root locations), every reachable node record (52 bytes, inside the data area, written after its item and both children) and item record (self-delimiting: location length = header total = 16+key+value), exact aggregates, key order; the decoded state must equal the model's flushed state, and the last write of every Flush must be exactly one root record. Reader side: files produced by the harness's own independent ENCODER from random states (1-3 appended flushes, different tree shapes than gkvlite would build) must be opened by gkvlite and read back to exactly that state, then mutated, flushed and decoded again. Non-trivial = image with >= 2 flushes and >= 1 non-empty collection (writer) / any encoder file (reader); distinct = distinct image hash.",
+		Rule:        "writer side: random histories (key lengths 1..65535 incl. the boundaries 255/256/65535, value lengths 0..4 KB plus a 1 MB value in some cases, 0-4 collections with plain and exotic names, magic-laden data, all callback configurations) - after EVERY successful Flush and for every CopyTo destination the file image is parsed by the independent decoder (standard library only, no gkvlite code): root record framing (doubled markers, version 4, both length fields, offset field, JSON map of root locations), every reachable node record (52 bytes, inside the data area, written after its item and both children) and item record (self-delimiting: location length = header total = 16+key+value), exact aggregates, key order; the decoded state must equal the model's flushed state, and the last write of every Flush must be exactly one root record. Reader side: files produced by the harness's own independent ENCODER from random states (1-3 appended flushes, different tree shapes than gkvlite would build) must be opened by gkvlite and read back to exactly that state, then mutated, flushed and decoded again. Concurrent cases: a flusher runs next to a mutator (and readers) under the deterministic yield-point scheduler; the image after every concurrent Flush must decode and every collection in it must have exactly the contents of a version that was current during that Flush. Non-trivial = image with >= 2 flushes and >= 1 non-empty collection (writer) / any encoder file (reader); distinct = distinct image hash.",
 		Assumptions: []string{"collection names are valid UTF-8", "the decoder's reading of the format description (package comment of internal/decoder) is the specification"},
-		NumCases:    func(tier string) int { return pick(tier, 600, 20000) + pick(tier, 200, 5000) },
+		NumCases:    func(tier string) int { return pick(tier, 600, 20000) + pick(tier, 200, 5000) + pick(tier, 400, 12000) },
 		Run:         runC14,
 		Floor: func(tier string, st map[string]int64) string {
-			for _, k := range []string{"decodes", "c14.encoder-files-read", "c14.copyto-images-decoded", "c14.big-value-cases", "c14.max-key-cases", "c14.empty-collection-images", "c14.root-last-checked"} {
+			for _, k := range []string{"decodes", "c14.encoder-files-read", "c14.copyto-images-decoded", "c14.big-value-cases", "c14.max-key-cases", "c14.empty-collection-images", "c14.root-last-checked", "c14.concurrent-flush-images"} {
 				if st[k] == 0 {
 					return "no " + k + " observed"
 				}
@@ -38,6 +42,9 @@ func runC14(ctx *Ctx, idx int) Result {
 	r := gen.New(seed)
 	SeedGlobalRand(seed)
 	nw := pick(ctx.Tier, 600, 20000)
+	if idx >= nw+pick(ctx.Tier, 200, 5000) {
+		return runC14Concurrent(ctx, idx, r)
+	}
 	if idx >= nw {
 		return runC14Encoder(ctx, idx, r)
 	}
@@ -164,4 +171,26 @@ func runC14Encoder(ctx *Ctx, idx int, r *gen.R) Result {
 	ctx.Add(e)
 	return Result{Hash: gen.MixS(string(img)), NonTrivial: true, Viol: violOf(e),
 		Sample: map[string]interface{}{"index": idx, "encoder_flushes": nFlush, "collections": names, "file_bytes": len(img)}}
+}
+
+// runC14Concurrent: files written by a Flush that runs next to the mutator.
+func runC14Concurrent(ctx *Ctx, idx int, r *gen.R) Result {
+	p := c05Program(r, false, 0)
+	p.MemOnly = false
+	for len(p.Flusher) < 3 {
+		p.Flusher = append(p.Flusher, conc.Step{K: conc.FFlush})
+	}
+	s := sched.New(&sched.Random{Next: r.Intn, Stick: []int{0, 30, 60}[r.Intn(3)]})
+	h, _ := conc.Run(p, conc.Mode{Sched: s})
+	fs, _, _ := conc.Check(p, h, 30*time.Second)
+	ctx.Stats["c14.concurrent-flush-images"] += int64(len(h.Flushes))
+	var v *Viol
+	for _, f := range fs {
+		if strings.HasPrefix(f.Sig, "C05/flush/") || strings.HasPrefix(f.Sig, "C05/panic") || strings.HasPrefix(f.Sig, "C05/error-returned/flusher") {
+			v = &Viol{Sig: "C14/concurrent-flush/" + strings.TrimPrefix(f.Sig, "C05/"), Detail: "[flusher next to the mutator, deterministic schedule] " + f.Detail}
+			break
+		}
+	}
+	return Result{Hash: s.Hash(), NonTrivial: len(h.Flushes) > 0, Viol: v,
+		Sample: map[string]interface{}{"index": idx, "mode": "concurrent flush", "flushes": len(h.Flushes), "decisions": len(s.Decisions)}}
 }
